@@ -30,6 +30,8 @@ Inductive dres :=
 Definition default_max_size : N := 4194304.
 Definition max_int : N := 9223372036854775807.
 Definition max_alloc : N := 281474976710656.
+(* len(sizeArr) = binary.MaxVarintLen64: iterations of the ReadByte loop *)
+Definition size_arr_len : nat := 10.
 
 (* the value [size] is compared with; MaxSize is an int64:
    0 -> default, -1 -> math.MaxInt, otherwise uint64(maxSize) *)
@@ -101,7 +103,7 @@ Fixpoint read_full (fuel : nat) (o : oracle) (i : nat) (need : N) (acc : list by
 Definition unmarshal (b : list byte) : dres := if body_ok b then DOk b else DBodyErr b.
 
 Definition unmarshal_from (o : oracle) (max_size : Z) (s : list byte) : dres * list byte :=
-  match read_size 10 true [] s with
+  match read_size size_arr_len true [] s with
   | RSErr e r => (e, r)
   | RSBuf buf r =>
     match dec_varint buf with
@@ -137,7 +139,7 @@ Definition read_stream (orc : nat -> oracle) (max_size : Z) (s : list byte) : li
 
 (* the reader-independent specification (proved equal in DelimP.v) *)
 Definition unmarshal_from_ref (max_size : Z) (s : list byte) : dres * list byte :=
-  match read_size 10 true [] s with
+  match read_size size_arr_len true [] s with
   | RSErr e r => (e, r)
   | RSBuf buf r =>
     match dec_varint buf with
